@@ -1,5 +1,11 @@
 import Sqljson.Audit
 import Sqljson.Props.Fuel
+import Sqljson.Props.C09b
+import Sqljson.Props.C06b
+import Sqljson.Props.C07b
+import Sqljson.Props.C08b
+import Sqljson.Props.C12b
+import Sqljson.Props.C14b
 import Sqljson.Props.C01
 open Sqljson
 #audit_ns C01 Sqljson.C01
@@ -15,3 +21,9 @@ open Sqljson
 #audit_ns C01 Sqljson.C16
 #audit_ns C01 Sqljson.FuelProps
 #audit C01 [Sqljson.Exec.Fuel.sim_all, Sqljson.Exec.Fuel.adequate_all]
+#audit_ns C01 Sqljson.C09b
+#audit_ns C01 Sqljson.C06b
+#audit_ns C01 Sqljson.C07b
+#audit_ns C01 Sqljson.C08b
+#audit_ns C01 Sqljson.C12b
+#audit_ns C01 Sqljson.C14b
